@@ -40,6 +40,11 @@ def run(tier, seed, replay=None):
     if replay:
         with open(replay) as f:
             r = json.load(f)["case"]
+        if "coupling_case" in r:
+            import coupling
+            coupling.stage(chk, tier, seed, work, rnd, only=r["coupling_case"])
+            shutil.rmtree(work, ignore_errors=True)
+            return chk.finish()
         builds = [r["variant"]]
     total = 0
     for variant in builds:
@@ -106,6 +111,11 @@ def run(tier, seed, replay=None):
     # node-triangle pairs of DIFFERENT cells -- no pair of one cell with itself, no pair skipped -- and forces that add up to zero.
     # With the pair rule validated above, the forces of a run are then reciprocal, short-ranged and separating.
     nrun = 0
+    # ---- the coupling protocol of the node-node coupling model (pairs of two epithelial cells, excluded from the pair rule above):
+    # every order of the presentations model-checked, every state replayed step by step through the real resolve_contact
+    if not replay:
+        import coupling
+        total += coupling.stage(chk, tier, seed, work, rnd)
     if not replay:
         import c06
         allt = c06.cases(tier, seed)
@@ -134,7 +144,7 @@ def run(tier, seed, replay=None):
     chk.cov["distinct_nontrivial"] = len(states)
     chk.cov["decisions_in_spec"] = decs
     chk.cov["rule"] = "one case per state of ContactRuleMC (node position in the lattice box, 4 triangles, 24 type pairs, 2 cut-offs), replayed per contact model at four units (8e-6 ... 6e-11: penetrations far below any absolute tolerance) and three offsets"
-    chk.assumptions += ["pairs of two epithelial cells can end in a coupling (order dependent) and are covered by C08 / C03, not here; same-cell exclusion and pair selection are part of the models' loops and are "
+    chk.assumptions += ["pairs of two epithelial cells can end in a coupling (order dependent): their protocol is spec/Contact/Coupling, replayed with the gates on normals and curvature open (a closed gate is a no-op of the same step); same-cell exclusion and pair selection are part of the models' loops and are "
                         "covered by the whole-phase comparison (shared with C06)", "cut-offs are integer multiples of the lattice unit (squared cut-offs exact); the spring model's adhesion amplitude "
                         "involves sqrt(d2): only reciprocity, range and direction are checked for it"]
     shutil.rmtree(work, ignore_errors=True)
